@@ -21,8 +21,8 @@ func init() {
 			"x option sets (random Roots/Intermediates split incl. leaf in Roots and intermediates in Roots, KeyUsages in {nil,[Any],[ServerAuth],[ClientAuth,EmailProtection],[CodeSigning]}, DNSName in {\"\",matching,non-matching}); " +
 			"every chain returned by Verify and ValidateWithStupidDetail is checked against the generator's ground truth; soundness only; " +
 			"non-trivial = a call that returned at least one chain of length >= 3; distinct by (returned chains, options)",
-		MinNontrivial:         6000,
-		MinNontrivialThorough: 150000,
+		MinNontrivial:         5000,
+		MinNontrivialThorough: 120000,
 		Assumptions: []string{
 			"ground truth of the PKI factory (who signed what, corruption, CA flag, pathLen, EKUs, validity) — each link is additionally re-verified with Go's crypto/ecdsa / crypto/ed25519",
 			"completeness is not part of the statement: chains the builder misses or duplicates (memoisation) are counted, never asserted",
@@ -522,7 +522,7 @@ var c07UsageSets = []struct {
 
 func runC07(c *core.Ctx) {
 	rng := c.Rng
-	npki := c.PerShard(c.Pick(24000, 600000))
+	npki := c.PerShard(c.Pick(16000, 400000))
 	nopts := c.Pick(4, 6)
 	base := time.Date(2024, 3, 1, 0, 0, 0, 0, time.UTC)
 	for i := 0; i < npki; i++ {
